@@ -1,0 +1,5 @@
+//go:build !verif
+
+package wkt
+
+func verifEmit(*wktLex, string, string, bool) {}
